@@ -62,10 +62,16 @@ AdoptInputs(DD, e) ==
     LET logged == Range(e.post.inputs) IN
     [DD EXCEPT !.inp = Drop(@, {n \in DOMAIN @ : n \notin logged \/ ~NodeExists(DD, n)})]
 
+\* the cells an element operation names exists in the definitions (on a broken tree the
+\* library may still serve an object whose definition is gone: the verdict stays total)
+CellOK(e) == NodeExists(D, <<e.c[1], e.c[2], e.c[3], <<>>>>)
+
 DAfterOK(e) ==
     CASE e.op = "set_value" ->
+            IF ~CellOK(e) THEN D ELSE
             [D EXCEPT !.inp = Upd(@, NodeOfEv(D, e), e.v)]
       [] e.op = "clear_at" ->
+            IF ~CellOK(e) THEN D ELSE
             [D EXCEPT !.inp = Drop(@, {NodeOfEv(D, e)})]
       [] e.op = "clear" -> D
       [] e.op = "clear_all" ->
@@ -219,12 +225,15 @@ EventViol(e, D2, ta) ==
                          IF CalledThrough(D, NodeOfEv(D, e)) \cap (taint \cup ta) # {}
                          THEN ta \cup {NodeOfEv(D, e)} ELSE ta)
               \cup (IF "tb" \in DOMAIN e THEN TracebackLabels(Tag, e.res, IF "tbx" \in DOMAIN e THEN e.tbx ELSE ChainOf(e.fx), e.tb) ELSE {})
-         ELSE {}
+         \* a cells that the definitions do not have answered with a value
+         ELSE Lbl(IsErr(e.res), "C01.Transparent")
     ELSE IF ~Accepted(e)
     THEN RejectedLabels(Tag, pdefs, IF "defs" \in DOMAIN e.post THEN e.post.defs ELSE pdefs, data, dl)
          \* (a quietly observed history reports no definitions between its operations)
     ELSE IF e.op = "write_read"
     THEN WriteReadLabels(Tag, D2, e, pdefs, data, dl)
+    ELSE IF e.op \in {"set_value", "clear_at"} /\ ~CellOK(e)
+    THEN Lbl(FALSE, "C13.NoResidue")      \* an edit of an object whose definition is gone was accepted
     ELSE IF e.op \in {"set_value", "clear_at"}
     THEN ValueEditLabels(Tag, D, D2, e.op = "set_value", NodeOfEv(D, e), data, dl, e.fx,
                          Opt(Tr.hdr, "recalc", FALSE), taint)
